@@ -33,10 +33,15 @@ const (
 	simErrApplied          // effect, then error returned
 	simCrashBefore         // process dies, no effect
 	simCrashAfter          // effect, then process dies
+	simHang                // the operation stalls until the caller's context expires, then fails without effect (virtual time only)
 )
 
+// simVirtualTime is set while a case runs inside a testing/synctest bubble: context deadlines then expire on virtual
+// time, so stalled operations cost nothing. Outside a bubble a simHang directive degrades to an immediate error.
+var simVirtualTime bool
+
 func (m simMode) String() string {
-	return [...]string{"ok", "err-not-applied", "err-applied", "crash-before", "crash-after"}[m]
+	return [...]string{"ok", "err-not-applied", "err-applied", "crash-before", "crash-after", "stall-until-deadline"}[m]
 }
 
 // simFault addresses one operation of the current phase of an incarnation.
@@ -88,19 +93,20 @@ type simCkptEvent struct {
 }
 
 type simWorld struct {
-	mu      sync.Mutex
-	objs    map[string][]byte
-	hist    map[string][][]byte // every version each key ever had (uploads), for roll-back tampering
-	opts    map[string]UploadOptions
+	stalls   int // operations that stalled until their deadline
+	mu       sync.Mutex
+	objs     map[string][]byte
+	hist     map[string][][]byte // every version each key ever had (uploads), for roll-back tampering
+	opts     map[string]UploadOptions
 	tampered bool // storage was modified behind the server's back: write-once and publication bookkeeping no longer apply
-	lock    map[[32]byte][]byte
-	opN     int
-	clock   int64
-	trace   []simOp
-	lockLog []simCkptEvent // every applied Create/Replace
-	pubLog  []simCkptEvent // every applied upload of key "checkpoint"
-	viol    []string
-	procs   int
+	lock     map[[32]byte][]byte
+	opN      int
+	clock    int64
+	trace    []simOp
+	lockLog  []simCkptEvent // every applied Create/Replace
+	pubLog   []simCkptEvent // every applied upload of key "checkpoint"
+	viol     []string
+	procs    int
 
 	cachePath string
 
@@ -327,6 +333,22 @@ func (p *simProc) decide(op *simOp) simMode {
 	return simOK
 }
 
+// stall implements simHang: called with w.mu held, it waits (lock released) for the caller's context to expire.
+// It returns the mode the operation then ends with.
+func (p *simProc) stall(ctx context.Context, mode simMode) simMode {
+	if mode != simHang {
+		return mode
+	}
+	if _, ok := ctx.Deadline(); !ok || !simVirtualTime {
+		return simErrNoApply
+	}
+	p.w.mu.Unlock()
+	<-ctx.Done()
+	p.w.mu.Lock()
+	p.w.stalls++
+	return simErrNoApply
+}
+
 func (p *simProc) die() {
 	p.dead = true
 	if p.onCrash != nil {
@@ -375,7 +397,7 @@ func (b *simBackend) Upload(ctx context.Context, key string, data []byte, opts *
 	if op.Class == "staging" && !op.Inline {
 		p.batchKeys = simBundleKeys(data)
 	}
-	mode := p.decide(op)
+	mode := p.stall(ctx, p.decide(op))
 	applied := mode == simOK || mode == simErrApplied || mode == simCrashAfter
 	if applied {
 		old, had := w.objs[key]
@@ -411,7 +433,7 @@ func (b *simBackend) Fetch(ctx context.Context, key string) ([]byte, error) {
 	p.doYield(ctx, op)
 	w.mu.Lock()
 	defer w.mu.Unlock()
-	mode := p.decide(op)
+	mode := p.stall(ctx, p.decide(op))
 	if mode == simErrApplied {
 		mode = simErrNoApply
 	}
@@ -448,7 +470,7 @@ func (b *simBackend) Discard(ctx context.Context, key string) error {
 	p.doYield(ctx, op)
 	w.mu.Lock()
 	defer w.mu.Unlock()
-	mode := p.decide(op)
+	mode := p.stall(ctx, p.decide(op))
 	applied := mode == simOK || mode == simErrApplied || mode == simCrashAfter
 	if applied {
 		if !strings.HasPrefix(key, "staging/") {
@@ -488,7 +510,7 @@ func (l *simLock) Fetch(ctx context.Context, logID [sha256.Size]byte) (LockedChe
 	p.doYield(ctx, op)
 	w.mu.Lock()
 	defer w.mu.Unlock()
-	mode := p.decide(op)
+	mode := p.stall(ctx, p.decide(op))
 	if mode == simErrApplied {
 		mode = simErrNoApply
 	}
@@ -521,7 +543,7 @@ func (l *simLock) Replace(ctx context.Context, old LockedCheckpoint, new []byte)
 	p.doYield(ctx, op)
 	w.mu.Lock()
 	defer w.mu.Unlock()
-	mode := p.decide(op)
+	mode := p.stall(ctx, p.decide(op))
 	applied := mode == simOK || mode == simErrApplied || mode == simCrashAfter
 	var realNew LockedCheckpoint
 	if applied {
@@ -559,7 +581,7 @@ func (l *simLock) Create(ctx context.Context, logID [sha256.Size]byte, new []byt
 	p.doYield(ctx, op)
 	w.mu.Lock()
 	defer w.mu.Unlock()
-	mode := p.decide(op)
+	mode := p.stall(ctx, p.decide(op))
 	applied := mode == simOK || mode == simErrApplied || mode == simCrashAfter
 	if applied {
 		_, exists := w.lock[logID]
